@@ -14,7 +14,13 @@ def predicate(res, q, r):
     d, inp = q["dict"], q["input"]
     words = {(w[1], w[0], json.dumps(w[2], sort_keys=True)) for w in d["std"] + d["anc"]}
     for c in r["candidates"]:
+        pos = 0
         for p in c["nodes"]:
+            if p["kind"] in ("word", "virtual"):
+                if p["kind"] == "word" and inp[pos:pos + len(p["reading"])] != p["reading"]:
+                    res.violation(f"candidate {c['text']!r} of {inp!r}: the word {p['surface']}/{p['reading']} covers {inp[pos:pos + len(p['reading'])]!r}, which is not exactly its dictionary reading",
+                                  {"query": q, "part": p, "at": pos})
+                pos += len(p["reading"])
             if p["kind"] == "word" and (p["surface"], p["reading"], json.dumps(p["speech"], sort_keys=True)) not in words:
                 res.violation(f"candidate {c['text']!r} contains the word {p['surface']}/{p['reading']} which is not a dictionary entry", {"query": q, "part": p})
     texts = set(c["text"] for c in r["candidates"])
@@ -46,9 +52,56 @@ def make_q(rnd, k):
     return qs
 
 
+def server_offer(res, rnd, tier):
+    """the same clause through the running server: words registered at run time join the standard words of their
+    reading, they never replace them (and the other way round)"""
+    from checks import server_common as sc
+    from srv import build_binaries
+    okb, blog = build_binaries()
+    if not okb:
+        res.tie_broken("the repository no longer builds with the hooks", blog[-1500:])
+        return 0
+    items = []
+    for _ in range(6 if tier == "quick" else 60):
+        base, alpha = sc.gen_base(rnd)
+        nouns = [e for e in base["std"] if e["speech"] in sc.NONCONJ]
+        if not nouns:
+            continue
+        reqs = []
+        for _ in range(rnd.randint(2, 5)):
+            e = rnd.choice(nouns)
+            tail = rnd.choice(["", rnd.choice(alpha), rnd.choice(base["anc"])["reading"] if base["anc"] else ""])
+            reqs.append({"kind": "convert", "input": e["reading"] + tail, "context": "Normal"})
+            # a user word with a reading the dictionary already has, and one with a new reading
+            reqs.append({"kind": "register", "wkind": rnd.choice(["CommonNoun", "ProperNoun"]), "reading": e["reading"] if rnd.random() < 0.7 else e["reading"] + rnd.choice(alpha),
+                         "word": "".join(rnd.choice(KANJI) for _ in range(2))})
+            reqs.append({"kind": "convert", "input": e["reading"] + tail, "context": "Normal"})
+        items.append((base, reqs))
+    runs = sc.run_histories(items, threads=6)
+    n = 0
+    for hr in runs:
+        for what, detail in hr.problems:
+            res.violation(what, {"base": hr.base, "requests": hr.requests, "detail": detail})
+        registered = []
+        for ev, obs in hr.events:
+            if ev["t"] == "register" and obs == {}:
+                registered.append({"reading": ev["reading"], "stem": ev["word"]})
+            elif ev["t"] == "convert" and obs is not None and len(obs["texts"]) < 100:
+                inp = ev["input"]
+                n += 1
+                for e in [x for x in hr.base["std"] if x["speech"] in sc.NONCONJ] + registered:
+                    if inp.startswith(e["reading"]):
+                        want = e["stem"] + inp[len(e["reading"]):]
+                        if want not in obs["texts"]:
+                            res.violation(f"the server does not offer {want!r} for {inp!r} although {e['stem']}/{e['reading']} is an independent word of its dictionary (standard or registered): {obs['texts']}",
+                                          {"base": hr.base, "requests": hr.requests, "input": inp, "want": want})
+    return n
+
+
 def run(tier, seed):
     res, cov = kkc_run(PROP, tier, seed, "Props/C03.v", ["Trie/TrieModel.v", "Trie/TrieAbs.v", "Trie/TrieOps.v", "Trie/TrieEdge.v", "Trie/TrieRebase.v",
                                                          "Trie/TrieInsert.v", "Trie/TrieProofs.v", "Props/C04.v", "Kkc/DictTrie.v"], predicate, make_q=make_q)
+    cov["server_conversions_checked"] = server_offer(res, random.Random(seed + 7), tier)
     cov["rule"] = ("as C01 with n = 10^6 (untruncated lists); dictionaries go through the real trie (insertion in shuffled orders); "
                    "non-trivial = some independent standard word's reading is a prefix of the input")
     return res.finish(cov, ["the trie in front of the map is covered by C04 (C03_with_trie composes the two)"])
@@ -59,6 +112,16 @@ def replay(path):
     build_harness()
     bad = 0
     for v in d.get("violations", []):
+        if "query" not in v["replay"]:
+            from checks import server_common as sc
+            from srv import build_binaries
+            build_binaries()
+            hr = sc.HistoryRun(v["replay"]["base"], v["replay"]["requests"]).run()
+            texts = [obs["texts"] for ev, obs in hr.events if ev["t"] == "convert" and obs and ev["input"] == v["replay"].get("input")]
+            still = any(v["replay"].get("want") not in t for t in texts[-1:])
+            print(v["what"][:200], "-> now:", texts[-1:] if texts else hr.problems[:1])
+            bad += 1 if (still or hr.problems) else 0
+            continue
         q = v["replay"]["query"]
         r = harness([q])[0]
         res = Result(PROP, "replay", 0)
